@@ -24,7 +24,7 @@ META = {
 }
 
 CONSTS = {'Variant': 'design', 'LenA': 1, 'LenB': 1, 'BinSizes': set(), 'Bpjs': set(), 'Mfss': set(), 'KindSet': set(),
-          'KwargsSet': set(), 'UseKeySet': set(), 'MaxRecs': 0, 'Threads': 1}
+          'KwargsSet': set(), 'UseKeySet': set(), 'NFiles': 1, 'MaxRecs': 0, 'Threads': 1}
 
 
 def key_fn(ev, clause):
